@@ -125,6 +125,10 @@ def _only_bound_to_effect_free_classes(px, f, param: str) -> bool:
         return False
     classes = {c.name: c for m in px.modules.values() for c in m.classes.values()}
     for a in sites:
+        # the class itself, or a factory `lambda: Class(...)` that does nothing but construct it
+        if isinstance(a, ast.Lambda) and isinstance(a.body, ast.Call) and isinstance(a.body.func, ast.Name) and a.body.func.id in classes \
+                and not any(isinstance(x_, ast.Call) and x_ is not a.body for x_ in ast.walk(a.body)):
+            a = a.body.func
         if not (isinstance(a, ast.Name) and a.id in classes):
             return False
         init = classes[a.id].mro_lookup("__init__")
